@@ -915,6 +915,13 @@ func genServer(o hx.Opts, emit func(string)) {
 	// configured secret: stateless, the same cookie is valid on another connection for the same address
 	emit(serverCase(sec, []byte("10.0.0.2:5000"), []byte("10.0.0.2:5000"), []hello{g}, []string{"a:0:-:p:1", "b:0:k0:p:1"}))
 
+	// a first hello with a version that cannot be served (TLS 1.2, SSL, 0.x) is refused with one alert
+	tls := g
+	tls.vers = 0x0303
+	low := g
+	low.vers = 0x0100
+	emit(serverCase(nil, []byte("10.0.0.2:5000"), []byte("10.0.0.3:5000"), []hello{tls, low, g}, []string{"a:0:-:p:1", "a:2:-:p:1", "b:2:-:p:1", "b:0:-:p:1", "b:1:k0:p:1"}))
+	emit(serverCase(nil, []byte("10.0.0.2:5000"), []byte("10.0.0.3:5000"), []hello{tls, low, g}, []string{"a:1:-:p:1", "b:0:-:o:1", "b:0:-:p:2"}))
 	// F32: several cookieless hellos in one datagram (one record / one record each)
 	emit(serverCase(nil, []byte("10.0.0.2:5000"), []byte("10.0.0.3:5000"), []hello{small}, []string{"a:0:-:p:1:2"}))
 	emit(serverCase(nil, []byte("10.0.0.2:5000"), []byte("10.0.0.3:5000"), []hello{small, g}, []string{"a:0:-:p:1:10", "a:0:r:p:1:3r", "a:1:-:p:1:4", "a:1:k0:p:1:2r", "a:1:-:p:1"}))
